@@ -529,6 +529,13 @@ def binop(op, a, b):
             return a
         if op == "sub":
             return binop("add", a, K(-c, bits))
+        if c > 1 and c & (c - 1) == 0:
+            if op == "urem":
+                return binop("and", a, K(c - 1, bits))
+            if op == "udiv":
+                return binop("lshr", a, K(c.bit_length() - 1, bits))
+            if op == "mul":
+                return binop("shl", a, K(c.bit_length() - 1, bits))
         if op == "add" and a.op == "add" and a.args[1].op == "k":
             return binop("add", a.args[0], K(a.args[1].args[0] + c, bits))
         if op in ("and", "or", "xor") and a.op == op and a.args[1].op == "k":
